@@ -3,9 +3,12 @@ package main
 import (
 	"fmt"
 	"math/rand"
+	"sort"
 	"strconv"
 	"strings"
 	"sync"
+
+	"github.com/tendermint/tendermint/types"
 
 	"verifharness/core"
 )
@@ -38,35 +41,110 @@ func pickPowers(r *rand.Rand) []int64 {
 		}
 		return p
 	}
-	return powersCopy(powerSets[r.Intn(len(powerSets))])
+	return append([]int64{}, powerSets[r.Intn(len(powerSets))]...)
 }
 
-func powersCopy(p []int64) []int64 { return append([]int64{}, p...) }
+// pickUpd builds a valid schedule of validator updates (txs of block h, in force at h+2)
+func pickUpd(r *rand.Rand, powers []int64, ih int64, mode string) string {
+	if mode == "none" {
+		return "-"
+	}
+	cur := map[int]int64{}
+	for i, p := range powers {
+		cur[i] = p
+	}
+	var parts []string
+	nUpd := 1 + r.Intn(2)
+	h := ih + int64(r.Intn(2))
+	for u := 0; u < nUpd && h < ih+4; u++ {
+		var es []string
+		kind := r.Intn(4)
+		if mode == "rotate" {
+			kind = 3
+		}
+		switch kind {
+		case 0: // power change
+			k := r.Intn(len(powers))
+			if _, ok := cur[k]; ok {
+				p := int64(1 + r.Intn(40))
+				cur[k] = p
+				es = append(es, fmt.Sprintf("%d!%d", k, p))
+			}
+		case 1: // add
+			for k := 0; k < nKeys; k++ {
+				if _, ok := cur[k]; !ok {
+					p := int64(1 + r.Intn(30))
+					cur[k] = p
+					es = append(es, fmt.Sprintf("%d!%d", k, p))
+					break
+				}
+			}
+		case 2: // remove one (never the last)
+			if len(cur) > 1 {
+				for k := 0; k < nKeys; k++ {
+					if _, ok := cur[k]; ok && r.Intn(2) == 0 {
+						delete(cur, k)
+						es = append(es, fmt.Sprintf("%d!0", k))
+						break
+					}
+				}
+			}
+		case 3: // replace the whole set by fresh keys
+			var old []int
+			for k := range cur {
+				old = append(old, k)
+			}
+			sort.Ints(old)
+			added := 0
+			for k := 0; k < nKeys && added < 1+r.Intn(2); k++ {
+				if _, ok := cur[k]; !ok {
+					p := int64(5 + r.Intn(10))
+					cur[k] = p
+					es = append(es, fmt.Sprintf("%d!%d", k, p))
+					added++
+				}
+			}
+			if added > 0 {
+				for _, k := range old {
+					delete(cur, k)
+					es = append(es, fmt.Sprintf("%d!0", k))
+				}
+			}
+		}
+		if len(es) > 0 {
+			parts = append(parts, fmt.Sprintf("%d:%s", h, strings.Join(es, "+")))
+		}
+		h += int64(1 + r.Intn(2))
+	}
+	if len(parts) == 0 {
+		return "-"
+	}
+	return strings.Join(parts, ";")
+}
 
-// quorumPrefix = smallest k such that validators 0..k-1 hold more than 2/3 of the power
-func (ch *chain) quorumPrefix() int {
-	total := ch.vals.TotalVotingPower()
+// quorumPrefix = smallest k such that validators 0..k-1 of the set at height h hold > 2/3
+func (ch *chain) quorumPrefix(h int64) int {
+	vs := ch.valsAt(h)
+	total := vs.TotalVotingPower()
 	var t int64
-	for i, v := range ch.vals.Validators {
+	for i, v := range vs.Validators {
 		t += v.VotingPower
 		if t > total*2/3 {
 			return i + 1
 		}
 	}
-	return len(ch.vals.Validators)
+	return len(vs.Validators)
 }
 
-var sigKinds = []string{"full", "quorum-absent", "padded-sig", "padded-addr", "padded-nil-bad", "padded-nil-ok", "forged", "forged-addr-only",
-	"short", "long", "insufficient", "random", "all-absent", "empty"}
+var sigKinds = []string{"full", "quorum-absent", "padded-sig", "padded-addr", "padded-addr-other", "padded-nil-bad", "padded-nil-ok", "forged",
+	"forged-otherkey", "forged-addr-only", "short", "long", "insufficient", "random", "all-absent", "empty", "other-height-set"}
 
-func (ch *chain) sigPattern(r *rand.Rand, kind string) []sigTok {
-	n := len(ch.keys)
-	q := ch.quorumPrefix()
-	ok := sigTok{'c', true, true}
-	t := make([]sigTok, n)
-	for i := range t {
-		t[i] = ok
-	}
+// sigPattern: entries of a commit for height h (whose validator set is valsAt(h))
+func (ch *chain) sigPattern(r *rand.Rand, kind string, h int64) []sigTok {
+	ks := ch.keysAt(h)
+	n := len(ks)
+	q := ch.quorumPrefix(h)
+	t := ch.allSign(h)
 	tail := func(f func(i int) sigTok) {
 		for i := q; i < n; i++ {
 			t[i] = f(i)
@@ -77,21 +155,33 @@ func (ch *chain) sigPattern(r *rand.Rand, kind string) []sigTok {
 	case "quorum-absent":
 		tail(func(int) sigTok { return sigTok{flag: 'a'} })
 	case "padded-sig":
-		tail(func(int) sigTok { return sigTok{'c', r.Intn(3) > 0, false} })
+		tail(func(i int) sigTok {
+			if r.Intn(3) == 0 {
+				return sigTok{'c', -1, -1}
+			}
+			return sigTok{'c', ks[i], -1}
+		})
 	case "padded-addr":
-		tail(func(int) sigTok { return sigTok{'c', false, true} })
+		tail(func(i int) sigTok { return sigTok{'c', -1, ks[i]} })
+	case "padded-addr-other":
+		tail(func(i int) sigTok { return sigTok{'c', ks[(i+1)%n], ks[i]} })
 	case "padded-nil-bad":
-		tail(func(int) sigTok { return sigTok{'n', true, false} })
+		tail(func(i int) sigTok { return sigTok{'n', ks[i], -1} })
 	case "padded-nil-ok":
-		tail(func(int) sigTok { return sigTok{'n', true, true} })
+		tail(func(i int) sigTok { return sigTok{'n', ks[i], ks[i]} })
 	case "forged":
-		t[r.Intn(q)] = sigTok{'c', true, false}
+		i := r.Intn(q)
+		t[i] = sigTok{'c', ks[i], -1}
+	case "forged-otherkey":
+		i := r.Intn(q)
+		t[i] = sigTok{'c', ks[i], (ks[i] + 1 + r.Intn(nKeys-1)) % nKeys}
 	case "forged-addr-only":
-		t[r.Intn(q)] = sigTok{'c', false, true}
+		i := r.Intn(q)
+		t[i] = sigTok{'c', -1, ks[i]}
 	case "short":
 		t = t[:n-1]
 	case "long":
-		t = append(t, ok)
+		t = append(t, sigTok{'c', ks[0], ks[0]})
 	case "insufficient":
 		for i := q - 1; i < n; i++ {
 			t[i] = sigTok{flag: 'a'}
@@ -102,9 +192,9 @@ func (ch *chain) sigPattern(r *rand.Rand, kind string) []sigTok {
 			case 0:
 				t[i] = sigTok{flag: 'a'}
 			case 1:
-				t[i] = sigTok{'n', r.Intn(2) == 0, r.Intn(2) == 0}
+				t[i] = sigTok{'n', ks[i], []int{ks[i], -1}[r.Intn(2)]}
 			case 2:
-				t[i] = sigTok{'c', r.Intn(2) == 0, r.Intn(2) == 0}
+				t[i] = sigTok{'c', []int{ks[i], -1, r.Intn(nKeys)}[r.Intn(3)], []int{ks[i], -1, r.Intn(nKeys)}[r.Intn(3)]}
 			}
 		}
 	case "all-absent":
@@ -113,6 +203,10 @@ func (ch *chain) sigPattern(r *rand.Rand, kind string) []sigTok {
 		}
 	case "empty":
 		t = nil
+	case "other-height-set":
+		// everybody of the set in force at ANOTHER height signs (e.g. a retired set)
+		h2 := ch.ih + int64(r.Intn(6))
+		t = ch.allSign(h2)
 	}
 	count(sigHist, kind)
 	return t
@@ -120,8 +214,10 @@ func (ch *chain) sigPattern(r *rand.Rand, kind string) []sigTok {
 
 func (ch *chain) canon(h int64) blockSpec {
 	s := blockSpec{h: h, lch: h - 1}
-	if h > 1 {
-		s.toks = allSign(len(ch.keys))
+	if h > ch.ih {
+		s.toks = ch.allSign(h - 1)
+	} else {
+		s.lch = 0
 	}
 	return s
 }
@@ -129,8 +225,8 @@ func (ch *chain) canon(h int64) blockSpec {
 // secondWith = canonical block h whose LastCommit (for h-1) follows the given pattern
 func (ch *chain) secondWith(r *rand.Rand, h int64, kind string) blockSpec {
 	s := ch.canon(h)
-	if h > 1 {
-		s.toks = ch.sigPattern(r, kind)
+	if h > ch.ih {
+		s.toks = ch.sigPattern(r, kind, h-1)
 	}
 	return s
 }
@@ -141,15 +237,26 @@ type script struct {
 
 func (s *script) add(f string, a ...interface{}) { s.ops = append(s.ops, fmt.Sprintf(f, a...)) }
 
-func initOp(powers []int64) (string, string, string) {
-	ps, ks := configOf(powers)
-	return fmt.Sprintf("init vals=%s keys=%s", ps, ks), ps, ks
+// newConfig picks validators, initial height and validator-update schedule and builds the chain
+func newConfig(r *rand.Rand, updMode string) (string, *chain) {
+	for {
+		powers := pickPowers(r)
+		ih := []int64{1, 1, 1, 2, 10, 1000}[r.Intn(6)]
+		vals := configOf(powers)
+		upd := pickUpd(r, powers, ih, updMode)
+		ch, err := getChain(vals, strconv.FormatInt(ih, 10), upd)
+		if err != nil {
+			// an update schedule the real executor rejects: try another one
+			continue
+		}
+		return fmt.Sprintf("init vals=%s ih=%d upd=%s", vals, ih, upd), ch
+	}
 }
 
 // honestRound: fair retry for heights cur and cur+1 with the honest peer 1
 func honestRound(s *script, ch *chain, cur, tip int64) {
 	s.add("connect p=1")
-	s.add("status p=1 base=1 height=%d", tip)
+	s.add("status p=1 base=%d height=%d", ch.ih, tip)
 	s.add("mkreq")
 	s.add("mkreq")
 	s.add("rtimeout h=%d", cur)
@@ -161,7 +268,7 @@ func honestRound(s *script, ch *chain, cur, tip int64) {
 	s.add("show")
 }
 
-var attacks = []string{"wrong-first", "flawed-first", "bad-second", "both-unsigned", "wrong-height", "unasked", "silent", "stale-status",
+var attacks = []string{"forged-by-other-set", "wrong-first", "flawed-first", "bad-second", "both-unsigned", "wrong-height", "unasked", "silent", "stale-status",
 	"bad-status", "malformed", "honest-first-liar-second-wrongheight-lc", "second-lc-other-target", "second-lc-wrong-psh"}
 
 // attack emits one adversarial episode at height cur by liar L; byz reports whether it used
@@ -173,19 +280,19 @@ func attack(r *rand.Rand, s *script, ch *chain, kind string, L int, cur, tip int
 		claim = tip + int64(r.Intn(3))
 	}
 	s.add("connect p=%d", L)
-	s.add("status p=%d base=%d height=%d", L, r.Intn(2), claim)
+	s.add("status p=%d base=%d height=%d", L, int64(r.Intn(2))*ch.ih, claim)
 	s.add("mkreq")
 	s.add("mkreq")
 	honestFirst := func() {
 		s.add("connect p=1")
-		s.add("status p=1 base=1 height=%d", tip)
+		s.add("status p=1 base=%d height=%d", ch.ih, tip)
 		s.add("rtimeout h=%d", cur)
 		s.add("pick h=%d p=1", cur)
 		s.ops = append(s.ops, ch.blockOp(1, ch.canon(cur)))
 	}
 	honestSecond := func() {
 		s.add("connect p=1")
-		s.add("status p=1 base=1 height=%d", tip)
+		s.add("status p=1 base=%d height=%d", ch.ih, tip)
 		s.add("rtimeout h=%d", cur+1)
 		s.add("pick h=%d p=1", cur+1)
 		s.ops = append(s.ops, ch.blockOp(1, ch.canon(cur+1)))
@@ -204,6 +311,25 @@ func attack(r *rand.Rand, s *script, ch *chain, kind string, L int, cur, tip int
 		}
 	}
 	switch kind {
+	case "forged-by-other-set":
+		// a forged block "committed" by the complete validator set of another height (a retired
+		// set after a change); nobody of the set in force need have signed
+		sp := ch.canon(cur)
+		sp.txv = 1
+		liarAt(cur, sp)
+		sp2 := ch.canon(cur + 1)
+		sp2.ttxv = 1
+		h2 := ch.ih + int64(r.Intn(int(cur-ch.ih)+1))
+		if r.Intn(3) == 0 {
+			h2 = ch.ih
+		}
+		sp2.toks = ch.allSign(h2)
+		if ch.isQuorum(cur, sp2.toks) {
+			// that IS the set in force: a block it signed is a fork by >2/3, not a forgery
+			sp2.toks = ch.sigPattern(r, "forged", cur)
+		}
+		liarAt(cur+1, sp2)
+		finish()
 	case "wrong-first":
 		sp := ch.canon(cur)
 		sp.txv = 1 + r.Intn(2)
@@ -226,13 +352,13 @@ func attack(r *rand.Rand, s *script, ch *chain, kind string, L int, cur, tip int
 		liarAt(cur, sp)
 		sp2 := ch.canon(cur + 1)
 		sp2.ttxv = 1
-		sp2.toks = ch.sigPattern(r, []string{"forged", "insufficient", "all-absent"}[r.Intn(3)])
+		sp2.toks = ch.sigPattern(r, []string{"forged", "insufficient", "all-absent", "forged-otherkey"}[r.Intn(4)], cur)
 		liarAt(cur+1, sp2)
 		finish()
 	case "wrong-height":
 		h := cur + 2 + int64(r.Intn(3))
-		if h > maxChain {
-			h = maxChain
+		if !ch.has(h) {
+			h = ch.ih + maxChain - 1
 		}
 		s.ops = append(s.ops, ch.blockOp(L, ch.canon(h)))
 		s.add("show")
@@ -310,14 +436,27 @@ func byzPair(r *rand.Rand, s *script, ch *chain, L int, cur, tip int64) {
 	s.add("rstep h=%d", cur+1)
 }
 
-func genSync(r *rand.Rand, kind string) core.Case {
-	powers := pickPowers(r)
-	io, ps, ks := initOp(powers)
-	ch, err := getChain(ps, ks)
-	if err != nil {
-		panic(err)
+// isQuorum: do the entries carry real signatures of more than 2/3 of the set in force at h?
+func (ch *chain) isQuorum(h int64, toks []sigTok) bool {
+	vs := ch.valsAt(h)
+	if len(toks) != len(vs.Validators) {
+		return false
 	}
-	tip := int64(3 + r.Intn(4))
+	var got int64
+	for i, v := range vs.Validators {
+		if toks[i].flag == 'c' && toks[i].sig == keyByAdr[string(v.Address)] {
+			got += v.VotingPower
+		}
+	}
+	return 3*got > 2*vs.TotalVotingPower()
+}
+
+var _ = types.BlockPartSizeBytes
+
+func genSync(r *rand.Rand, kind string) core.Case {
+	updMode := []string{"none", "any", "any", "rotate"}[r.Intn(4)]
+	io, ch := newConfig(r, updMode)
+	tip := ch.ih + int64(2+r.Intn(4))
 	s := &script{}
 	s.add("%s", io)
 	nLiars := r.Intn(3)
@@ -325,7 +464,12 @@ func genSync(r *rand.Rand, kind string) core.Case {
 		nLiars = 1
 	}
 	pAttack := []float64{0, 0.4, 0.7}[r.Intn(3)]
-	for cur := int64(1); cur < tip; cur++ {
+	for cur := ch.ih; cur < tip; cur++ {
+		if kind != "sync-byz" && cur > ch.ih && r.Intn(8) == 0 {
+			// the process is restarted while syncing (same stores)
+			s.add("restart")
+			s.add("show")
+		}
 		if nLiars > 0 && kind == "sync" && r.Float64() < pAttack {
 			for k := 0; k < 1+r.Intn(2); k++ {
 				attack(r, s, ch, attacks[r.Intn(len(attacks))], 2+r.Intn(nLiars), cur, tip)
@@ -338,9 +482,9 @@ func genSync(r *rand.Rand, kind string) core.Case {
 			// the block that only lends its LastCommit comes from the liar
 			L := 2
 			s.add("connect p=1")
-			s.add("status p=1 base=1 height=%d", tip-1)
+			s.add("status p=1 base=%d height=%d", ch.ih, tip-1)
 			s.add("connect p=%d", L)
-			s.add("status p=%d base=1 height=%d", L, tip)
+			s.add("status p=%d base=%d height=%d", L, ch.ih, tip)
 			s.add("mkreq")
 			s.add("mkreq")
 			s.add("rtimeout h=%d", cur)
@@ -366,23 +510,86 @@ func genSync(r *rand.Rand, kind string) core.Case {
 	s.add("show")
 	s.add("store")
 	s.add("handover")
+	if r.Intn(3) == 0 {
+		s.add("restart")
+		s.add("store")
+	}
 	return core.Case{Kind: kind, ID: fmt.Sprintf("%s-T%d-n%d", kind, tip, len(s.ops)), Ops: s.ops}
 }
 
-func genSoup(r *rand.Rand) core.Case {
-	powers := pickPowers(r)
-	io, ps, ks := initOp(powers)
-	ch, err := getChain(ps, ks)
-	if err != nil {
-		panic(err)
-	}
+// genBulk: everything is delivered before the processing loop runs, so ONE run of poolRoutine
+// (one `state` variable, as in a real node) carries the node across validator-set changes.
+// With a liar: the pair at some later height is a forged block "committed" by the complete
+// validator set of the first height (retired after a rotation).
+func genBulk(r *rand.Rand) core.Case {
+	io, ch := newConfig(r, []string{"any", "rotate", "rotate", "none"}[r.Intn(4)])
+	tip := ch.ih + int64(3+r.Intn(4))
 	s := &script{}
 	s.add("%s", io)
 	s.add("connect p=1")
-	s.add("status p=1 base=%d height=%d", r.Intn(2), 2+r.Intn(4))
+	s.add("status p=1 base=%d height=%d", ch.ih, tip)
+	forgeAt := int64(-1)
+	if r.Intn(2) == 0 {
+		forgeAt = ch.ih + 1 + int64(r.Intn(int(tip-ch.ih)-1))
+		s.add("connect p=2")
+		s.add("status p=2 base=%d height=%d", ch.ih, tip)
+	}
+	for h := ch.ih; h <= tip; h++ {
+		s.add("mkreq")
+	}
+	for h := ch.ih; h <= tip; h++ {
+		switch {
+		case h == forgeAt:
+			sp := ch.canon(h)
+			sp.txv = 1
+			s.add("pick h=%d p=2", h)
+			s.ops = append(s.ops, ch.blockOp(2, sp))
+		case h == forgeAt+1 && forgeAt >= 0:
+			sp := ch.canon(h)
+			sp.ttxv = 1
+			sp.toks = ch.allSign(ch.ih)
+			if ch.isQuorum(h-1, sp.toks) {
+				sp.toks = ch.sigPattern(r, "forged", h-1)
+			}
+			count(attackHist, "bulk-forged-by-first-set")
+			s.add("pick h=%d p=2", h)
+			s.ops = append(s.ops, ch.blockOp(2, sp))
+		default:
+			s.add("pick h=%d p=1", h)
+			s.ops = append(s.ops, ch.blockOp(1, ch.canon(h)))
+		}
+	}
+	s.add("process")
+	s.add("show")
+	s.add("store")
+	start := ch.ih
+	if forgeAt >= 0 {
+		start = forgeAt
+		for h := forgeAt; h <= tip; h++ {
+			s.add("rstep h=%d", h)
+		}
+	} else {
+		start = tip
+	}
+	for cur := start; cur < tip; cur++ {
+		honestRound(s, ch, cur, tip)
+	}
+	s.add("timeout p=2")
+	s.add("show")
+	s.add("store")
+	s.add("handover")
+	return core.Case{Kind: "sync", ID: fmt.Sprintf("bulk-T%d-n%d", tip, len(s.ops)), Ops: s.ops}
+}
+
+func genSoup(r *rand.Rand) core.Case {
+	io, ch := newConfig(r, []string{"none", "any", "rotate"}[r.Intn(3)])
+	s := &script{}
+	s.add("%s", io)
+	s.add("connect p=1")
+	s.add("status p=1 base=%d height=%d", int64(r.Intn(2))*ch.ih, ch.ih+int64(1+r.Intn(4)))
 	n := 25 + r.Intn(40)
 	randSpec := func() blockSpec {
-		h := int64(1 + r.Intn(4))
+		h := ch.ih + int64(r.Intn(4))
 		sp := ch.canon(h)
 		switch r.Intn(8) {
 		case 0:
@@ -390,8 +597,8 @@ func genSoup(r *rand.Rand) core.Case {
 		case 1:
 			sp.flaw = true
 		case 2, 3:
-			if h > 1 {
-				sp.toks = ch.sigPattern(r, sigKinds[r.Intn(len(sigKinds))])
+			if h > ch.ih {
+				sp.toks = ch.sigPattern(r, sigKinds[r.Intn(len(sigKinds))], h-1)
 			}
 		case 4:
 			sp.ttxv = 1
@@ -402,7 +609,7 @@ func genSoup(r *rand.Rand) core.Case {
 	}
 	for i := 0; i < n; i++ {
 		p := 1 + r.Intn(3)
-		h := 1 + r.Intn(4)
+		h := ch.ih + int64(r.Intn(4))
 		switch x := r.Intn(40); {
 		case x < 3:
 			s.add("connect p=%d", p)
@@ -410,7 +617,7 @@ func genSoup(r *rand.Rand) core.Case {
 			if r.Intn(8) == 0 {
 				s.add("status p=%d base=%d height=%d", p, r.Intn(7)-1, r.Intn(7)-1)
 			} else {
-				s.add("status p=%d base=%d height=%d", p, r.Intn(2), r.Intn(7))
+				s.add("status p=%d base=%d height=%d", p, int64(r.Intn(2))*ch.ih, ch.ih-1+int64(r.Intn(7)))
 			}
 		case x < 11:
 			s.add("mkreq")
@@ -431,7 +638,11 @@ func genSoup(r *rand.Rand) core.Case {
 		case x < 38:
 			s.add("show")
 		case x < 39:
-			s.add("peek")
+			if r.Intn(3) == 0 {
+				s.add("restart")
+			} else {
+				s.add("peek")
+			}
 		default:
 			s.add("handover")
 		}
@@ -444,9 +655,10 @@ func genSoup(r *rand.Rand) core.Case {
 }
 
 func genBadOps(r *rand.Rand) core.Case {
-	io, _, _ := initOp([]int64{10, 10, 10})
+	io, _ := newConfig(r, "none")
 	bad := []string{"pick h=x p=1", "pick h=1", "block p=1 h=2", "status p=1 base=0", "frobnicate", "connect p=-1", "connect", "mkreq now",
-		"block p=1 h=2 id=zz/1 prev=0/0 flaw=0 lc=1:0:0/0:c11 d=0/000", "rstep", "timeout p=a", "process all", "init vals=", "init vals=0,x keys=0,1"}
+		"block p=1 h=2 id=zz/1 prev=0/0 flaw=0 lc=1:0:0/0:c0.0 nv=- d=0/000", "rstep", "timeout p=a", "process all", "init vals=", "init vals=0:x ih=1 upd=-",
+		"init vals=5:0 ih=0 upd=-", "init vals=0:0 ih=1 upd=-", "restart now", "block p=1 h=2 id=1/1 prev=0/0 flaw=0 lc=1:0:0/0:c0.0 nv=3:0, d=0/000"}
 	s := &script{}
 	if r.Intn(2) == 0 {
 		s.add("connect p=1") // before init
@@ -472,6 +684,9 @@ func gen(r *rand.Rand, tier string, emit func(core.Case)) {
 		emit(genSync(r, "sync-byz"))
 	}
 	for i := 0; i < 40*mul; i++ {
+		emit(genBulk(r))
+	}
+	for i := 0; i < 40*mul; i++ {
 		emit(genSync(r, "tip"))
 	}
 	for i := 0; i < 150*mul; i++ {
@@ -487,44 +702,61 @@ func gen(r *rand.Rand, tier string, emit func(core.Case)) {
 // property oracle on the implementation's outputs (independent of the model)
 
 type told struct {
-	h    int64
-	prev string
-	flaw bool
-	lcOK bool // LastCommit is a fully valid commit (every non-absent signature valid, >2/3 for the block) of height h-1 for `prev`
+	h      int64
+	prev   string
+	flaw   bool
+	lcH    string
+	lcID   string
+	lcSigs string
+	nv     string
 }
 
-func parsePowers(op string) []int64 {
-	var out []int64
-	for _, t := range strings.Split(kv(op)["vals"], ",") {
-		p, err := strconv.ParseInt(t, 10, 64)
-		if err != nil {
+type pv struct {
+	power int64
+	key   int
+}
+
+func parseSet(s string) []pv {
+	var out []pv
+	for _, e := range strings.Split(s, ",") {
+		p := strings.Split(e, ":")
+		if len(p) != 2 {
 			return nil
 		}
-		out = append(out, p)
+		pw, err1 := strconv.ParseInt(p[0], 10, 64)
+		k, err2 := strconv.Atoi(p[1])
+		if err1 != nil || err2 != nil {
+			return nil
+		}
+		out = append(out, pv{pw, k})
 	}
 	return out
 }
 
-// quorum: power of validators with a valid commit-flag signature > 2/3 of the total
-func quorum(powers []int64, sigs string) bool {
+// quorum: entry i is a for-block signature by the key of validator i, for > 2/3 of the power
+func quorum(set []pv, sigs string) bool {
 	toks, ok := parseSigToks(sigs)
-	if !ok || len(toks) != len(powers) {
+	if !ok || len(toks) != len(set) {
 		return false
 	}
 	var total, got int64
-	for i, p := range powers {
-		total += p
-		if toks[i].flag == 'c' && toks[i].sigOK {
-			got += p
+	for i, v := range set {
+		total += v.power
+		if toks[i].flag == 'c' && toks[i].sig == v.key {
+			got += v.power
 		}
 	}
 	return 3*got > 2*total
 }
 
-func allNonAbsentValid(sigs string) bool {
-	toks, _ := parseSigToks(sigs)
-	for _, t := range toks {
-		if t.flag != 'a' && !t.sigOK {
+// fullyValid: VerifyCommit's extra demand — every non-absent entry verifies under validator i's key
+func fullyValid(set []pv, sigs string) bool {
+	toks, ok := parseSigToks(sigs)
+	if !ok || len(toks) != len(set) {
+		return false
+	}
+	for i, t := range toks {
+		if t.flag != 'a' && t.sig != set[i].key {
 			return false
 		}
 	}
@@ -536,10 +768,15 @@ func oracle(c core.Case, out []string) []core.Finding {
 		return oracleE2E(c, out)
 	}
 	var fs []core.Finding
-	var powers []int64
+	var set0 []pv
+	ih := int64(1)
 	offered := map[string]told{} // block id -> what the harness built
 	var pendingPair []string
 	lastStore := ""
+	var tipSet []pv // the set that had to commit the last stored block
+	var tipSigs string
+	savedTotal := int64(0)
+	scripted := c.Kind == "sync" || c.Kind == "tip"
 	for i, op := range c.Ops {
 		if i >= len(out) {
 			break
@@ -552,31 +789,44 @@ func oracle(c core.Case, out []string) []core.Finding {
 		switch f[0] {
 		case "init":
 			if strings.HasPrefix(out[i], "ok") {
-				powers = parsePowers(op)
+				set0 = parseSet(m["vals"])
+				ih, _ = strconv.ParseInt(m["ih"], 10, 64)
 				offered = map[string]told{}
+				savedTotal = 0
+				if out[i] != fmt.Sprintf("ok h=%d", ih) {
+					fs = append(fs, core.Finding{Fingerprint: "v0.NewBlockchainReactor.start-height-not-initial-height",
+						Desc: fmt.Sprintf("empty store, genesis initial_height %d: the pool starts at %q — the first height it requests must be the chain's first block", ih, out[i])})
+				}
+			}
+		case "restart":
+			if strings.HasPrefix(out[i], "ok") && out[i] != fmt.Sprintf("ok h=%d", ih+savedTotal) {
+				fs = append(fs, core.Finding{Fingerprint: "v0.NewBlockchainReactor.start-height-after-restart",
+					Desc: fmt.Sprintf("restart with %d blocks stored (first height %d): the pool starts at %q instead of %d", savedTotal, ih, out[i], ih+savedTotal)})
+			}
+			if strings.HasPrefix(out[i], "panic-") {
+				fs = append(fs, handoverFinding(out[i], "restart", tipSet, tipSigs))
 			}
 		case "block":
 			lc := strings.Split(m["lc"], ":")
 			h, _ := strconv.ParseInt(m["h"], 10, 64)
 			if len(lc) == 4 {
-				t := told{h: h, prev: m["prev"], flaw: m["flaw"] == "1"}
-				if h == 1 {
-					t.lcOK = lc[3] == "-"
-				} else {
-					t.lcOK = lc[0] == strconv.FormatInt(h-1, 10) && lc[2] == m["prev"] && quorum(powers, lc[3]) && allNonAbsentValid(lc[3])
-				}
-				offered[m["id"]] = t
+				offered[m["id"]] = told{h: h, prev: m["prev"], flaw: m["flaw"] != "0", lcH: lc[0], lcID: lc[2], lcSigs: lc[3], nv: m["nv"]}
 			}
 		case "process":
 			pendingPair = nil
-			if strings.Contains(out[i], "err=") && !strings.Contains(out[i], "err=-") {
-				mm := kv("x " + out[i])
-				if mm["pair"] != "" {
-					for _, p := range strings.Split(mm["pair"], "/") {
-						if p != "-" {
-							pendingPair = append(pendingPair, p)
-						}
+			mm := kv("x " + out[i])
+			if k, err := strconv.ParseInt(mm["saved"], 10, 64); err == nil {
+				savedTotal += k
+			}
+			if mm["err"] != "" && mm["err"] != "-" {
+				for _, p := range strings.Split(mm["pair"], "/") {
+					if p != "-" && p != "" {
+						pendingPair = append(pendingPair, p)
 					}
+				}
+				if scripted && mm["pair"] == "1/1" {
+					fs = append(fs, core.Finding{Fingerprint: "v0.poolRoutine.honest-pair-rejected",
+						Desc: fmt.Sprintf("both blocks in front came from the honest peer (canonical chain) and the check failed with %s: the honest peer is dropped", mm["err"])})
 				}
 			}
 		case "show":
@@ -604,51 +854,55 @@ func oracle(c core.Case, out []string) []core.Finding {
 			if mm["blocks"] == "" || mm["blocks"] == "-" {
 				continue
 			}
+			// the node's own state, re-derived: sets shift as updateState prescribes
+			last, cur, next := []pv(nil), set0, set0
 			prevID := "0/0"
 			for k, e := range strings.Split(mm["blocks"], ";") {
 				p := strings.Split(e, ":")
+				h := ih + int64(k)
 				if len(p) != 4 {
 					fs = append(fs, core.Finding{Fingerprint: "v0.store.block-or-seen-commit-missing", Desc: "stored height without block or seen commit: " + e})
-					continue
+					break
 				}
-				if p[0] != strconv.Itoa(k+1) {
+				if p[0] != strconv.FormatInt(h, 10) {
 					fs = append(fs, core.Finding{Fingerprint: "v0.store.heights-not-contiguous", Desc: out[i]})
 				}
 				if p[1] != p[2] {
 					fs = append(fs, core.Finding{Fingerprint: "v0.saved.seen-commit-for-other-block",
 						Desc: fmt.Sprintf("height %s: stored block %s but its seen commit is for %s", p[0], p[1], p[2])})
 				}
-				if !quorum(powers, p[3]) {
+				if !quorum(cur, p[3]) {
 					fs = append(fs, core.Finding{Fingerprint: "v0.saved.without-two-thirds",
-						Desc: fmt.Sprintf("height %s: block %s stored with seen commit %s which has no valid >2/3 for it", p[0], p[1], p[3])})
+						Desc: fmt.Sprintf("height %s: block %s stored with seen commit %s, which does not carry valid signatures of >2/3 of the validator set the node's state prescribes for that height (%v)", p[0], p[1], p[3], cur)})
 				}
 				t, known := offered[p[1]]
-				if !known || t.flaw || !t.lcOK || t.prev != prevID || strconv.FormatInt(t.h, 10) != p[0] {
+				okLC := false
+				if known {
+					if h == ih {
+						okLC = t.lcSigs == "-"
+					} else {
+						okLC = t.lcH == strconv.FormatInt(h-1, 10) && t.lcID == prevID && quorum(last, t.lcSigs) && fullyValid(last, t.lcSigs)
+					}
+				}
+				if !known || t.flaw || !okLC || t.prev != prevID || t.h != h {
 					fs = append(fs, core.Finding{Fingerprint: "v0.saved.block-fails-validation",
 						Desc: fmt.Sprintf("height %s: stored block %s does not pass validation on its predecessor %s (%+v)", p[0], p[1], prevID, t)})
 				}
 				prevID = p[1]
+				tipSet, tipSigs = cur, p[3]
+				nn := next
+				if known && t.nv != "-" && t.nv != "" {
+					nn = parseSet(t.nv)
+				}
+				last, cur, next = cur, next, nn
 			}
 		case "handover":
 			if strings.HasPrefix(out[i], "panic-") {
-				kind := strings.TrimPrefix(out[i], "panic-")
-				fp := "v0.handover." + out[i]
-				desc := "switch to consensus panics in reconstructLastCommit: " + out[i]
-				if (kind == "sig" || kind == "addr") && lastStore != "" {
-					// is it the never-verified tail of the tip's seen commit?
-					mm := kv("x " + lastStore)
-					bl := strings.Split(mm["blocks"], ";")
-					p := strings.Split(bl[len(bl)-1], ":")
-					if len(p) == 4 && quorum(powers, p[3]) {
-						fp += ".unverified-rest-of-tip-seen-commit"
-						desc = fmt.Sprintf("the seen commit stored for the last synced block (%s) was only light-verified: a signature after the first +2/3 is invalid or carries a foreign validator address, and CommitToVoteSet panics at SwitchToConsensus (%s)", p[3], out[i])
-					}
-				}
-				fs = append(fs, core.Finding{Fingerprint: fp, Desc: desc})
+				fs = append(fs, handoverFinding(out[i], "SwitchToConsensus", tipSet, tipSigs))
 			}
 		}
 	}
-	if c.Kind == "sync" || c.Kind == "tip" {
+	if scripted {
 		// scripted fair retry with an honest peer: tip-1 must be reached
 		tip, nops := int64(0), 0
 		if p := strings.Split(c.ID, "-"); len(p) >= 3 {
@@ -662,6 +916,17 @@ func oracle(c core.Case, out []string) []core.Finding {
 		}
 	}
 	return fs
+}
+
+func handoverFinding(outTok, where string, tipSet []pv, tipSigs string) core.Finding {
+	kind := strings.TrimPrefix(outTok, "panic-")
+	fp := "v0.handover." + outTok
+	desc := where + " panics in reconstructLastCommit: " + outTok
+	if (kind == "sig" || kind == "addr") && tipSigs != "" && quorum(tipSet, tipSigs) {
+		fp += ".unverified-rest-of-tip-seen-commit"
+		desc = fmt.Sprintf("the seen commit stored for the last synced block (%s) was only light-verified: an entry after the first +2/3 has an invalid signature or a foreign validator address, and CommitToVoteSet panics at %s (%s)", tipSigs, where, outTok)
+	}
+	return core.Finding{Fingerprint: fp, Desc: desc}
 }
 
 func nonTrivial(c core.Case, out []string) bool {
